@@ -9,6 +9,19 @@ statement:
 * its value(s): a number default -> one slot; a tuple default -> one slot per
   element; no default / None -> the default of metadata['specs'][name] if
   present, else 0.0;
+* a slot is an IEEE float32: it holds the float32 nearest to the declared
+  number (int, bool or float; +-inf stay +-inf, -0.0 keeps its sign, numbers
+  below the smallest denormal become a zero of their sign); numbers beyond
+  the float32 range have no nearest float32 and are outside the domain.  The
+  documentation says "numbers, int or float" are the valid values and is
+  silent about NaN, so a NaN default has three acceptable fates: the slot
+  holds NaN (a float like any other), it is replaced like the other invalid
+  defaults (scalar: spec default / 0.0; tuple item: 0.0), or the build
+  refuses the signature.  Every other float - the infinities included - must
+  arrive in its slot;
+* a parameter's NAME is only a name: it never influences rate, lag, slot,
+  order or value (this port defines rates by annotations and the rates
+  argument only; sclang's a_ i_ t_ argument prefixes mean nothing here);
 * its rate: a rate name in `rates` ('ar','kr','ir','tr') wins over the
   annotation, the annotation wins over the default 'kr'; a number (or, for
   array parameters, a list of numbers, cyclically extended) in `rates` is the
@@ -66,9 +79,24 @@ def f32(x):
     return struct.unpack('>f', struct.pack('>f', float(x)))[0]
 
 
+def same_f32(a, b):
+    """the same float32 bit for bit (sign of zero included); any NaN = NaN"""
+    if a != a or b != b:
+        return a != a and b != b
+    return struct.pack('>f', a) == struct.pack('>f', b)
+
+
+def slot_holds(got, declared, nan_fallback=0.0):
+    """does a decoded float32 slot hold the declared number?"""
+    exp = f32(declared)
+    if exp != exp:
+        return got != got or same_f32(got, f32(nan_fallback))
+    return same_f32(got, exp)
+
+
 class Slot:
     __slots__ = ('name', 'func', 'index', 'size', 'rate', 'defaults', 'lags',
-                 'is_array', 'decl')
+                 'is_array', 'decl', 'nan_fallback')
 
     def describe(self):
         return {k: getattr(self, k) for k in self.__slots__}
@@ -208,6 +236,8 @@ def layout(prog, failed='kept'):
             s = Slot()
             s.name, s.func, s.size, s.rate = p['name'], fname, len(vals), rate
             s.defaults, s.lags, s.is_array, s.decl = vals, lags, is_array, k
+            # what a NaN default becomes if it is treated as invalid
+            s.nan_fallback = 0.0 if is_array else specs.get(p['name'], 0.0)
             s.index = None
             mine.append(s)
             key = (fname, p['name'])
